@@ -193,7 +193,16 @@ def run(ctx, col: Collector):
             # multi-line switch
             single = {q for q in quotes if q in ("'", '"')}
             if single and '?' not in quotes:
-                switch = "'''" in quotes and all(any("'\\n' in" in g for g, pol in allguards[id(f)]) for f, _ in finals if f.quote in ("'", '"', "'''"))
+                def no_newline(gs):
+                    # some test on the way establishes that the value contains no line break (either spelling: `'\\n' in x` false / `'\\n' not in x` true)
+                    for g, pol in gs:
+                        g2 = g.replace('"', "'")
+                        if "'\\n' not in" in g2 and pol:
+                            return True
+                        if "'\\n' in" in g2 and not pol:
+                            return True
+                    return False
+                switch = "'''" in quotes and all(no_newline(allguards[id(f)]) for f, _ in finals if f.quote in ("'", '"'))
                 col.check(switch, 'C13-sink', base + ':multi-line-switch', f'{label}: a value containing a line break is written triple-quoted',
                           f'{label} is written by {s.fn.qualname} only in the single-line form ({sorted(single)}) / without a line-break test: a multi-line value is '
                           f'written inside a single-line literal, which the reader rejects', node=s.node, file=s.fn.file)
@@ -219,6 +228,8 @@ def run(ctx, col: Collector):
             groups.setdefault(f'{label}@{s.fn.qualname}', []).append((s, label))
         n = 0
         TQ = "'" * 3
+        owners = entry_classes(ctx, ti)
+        verdicts: Dict[str, List[tuple]] = {}
         for base, members in sorted(groups.items()):
             s, label = members[0]
             is_ind = s.fn.id in indented
@@ -243,9 +254,18 @@ def run(ctx, col: Collector):
             ok = cls in normalised and fresh
             why = ('the text is not normalised when parsed' if cls not in normalised else
                    'the literal opens in the middle of a line, so its first line is not indented with the rest and the common indentation cannot be removed again')
-            col.check(ok, 'C13-indent', base, f'{label}: a multi-line value is written on fresh lines and de-indented again by the parser',
-                      f'{label} written by {s.fn.qualname} can span lines and the text it is part of is passed through indent() afterwards; {why}: '
-                      f'every continuation line comes back with the added indentation (the text drifts on each parse/render cycle)', node=s.node, file=s.fn.file)
+            # one obligation per (text attribute, element kind whose rendering contains the sink): stable when the writing code moves between helpers
+            for owner in sorted(owners.get(s.fn.id, ())) or [s.fn.qualname]:
+                verdicts.setdefault(f'{label}@{owner}', []).append((ok, why, s))
+        for cons, vs in sorted(verdicts.items()):
+            label = cons.split('@')[0]
+            badv = [v for v in vs if not v[0]]
+            if not badv:
+                col.ok('C13-indent', cons, f'{label}: a multi-line value is written on fresh lines and de-indented again by the parser', node=vs[0][2].node, file=vs[0][2].fn.file)
+            else:
+                _, why, s = badv[0]
+                col.bad('C13-indent', cons, f'{label} written by {s.fn.qualname} can span lines and the text it is part of is passed through indent() afterwards; {why}: '
+                        f'every continuation line comes back with the added indentation (the text drifts on each parse/render cycle)', node=s.node, file=s.fn.file)
         col.floor('C13-indent', 'multi-line text sinks under indent()', n, 4)
     guarded(col, 'C13-indent', 'indentation', indentation)
 
@@ -447,6 +467,33 @@ def indentation_remover(ri: FuncInfo) -> Tuple[bool, str]:
     if not joins or (sep is not None and joins[-1].func.value.value != sep):
         return False, f'lines are split on {sep!r} but joined with {joins[-1].func.value.value!r}' if joins else 'lines are not joined back'
     return True, ''
+
+
+def entry_classes(ctx, ti: TemplateIndex) -> Dict[str, Set[str]]:
+    """function id -> names of the model classes whose registered DBML renderer is that function or reaches it through plain calls."""
+    idx = ctx.idx
+    funcs = {fid: fi for fid, fi in ti.funcs.items() if fi.module.startswith(DBML)}
+    reg = {}
+    for rid, table in idx.registry.items():
+        if '.dbml.' in idx.classes[rid].module:
+            reg = table
+    out: Dict[str, Set[str]] = {}
+    for cls_id, fns in reg.items():
+        cname = cls_id.split(':')[-1]
+        seen: Set[str] = set()
+        todo = [g for g in fns]
+        while todo:
+            fi = todo.pop()
+            if fi.id in seen:
+                continue
+            seen.add(fi.id)
+            out.setdefault(fi.id, set()).add(cname)
+            for c in ast.walk(fi.node):
+                if isinstance(c, ast.Call) and isinstance(c.func, ast.Name):
+                    t = ti.resolve_func(fi, c.func.id)
+                    if t is not None and t.id in funcs and t.id not in seen:
+                        todo.append(t)
+    return out
 
 
 def indented_functions(ctx, ti: TemplateIndex, envs) -> Tuple[Set[str], Dict[str, Set[str]]]:
